@@ -4,14 +4,21 @@ malformed frames with a readable header length are skipped without losing what f
 from __future__ import annotations
 
 import asyncio
+import contextlib
+import functools
 import itertools
+import random
 from typing import Any
 
 from vlib import knxip_gen as g
 from vlib.vloop import new_loop, patch_multicast
 from xknx.exceptions import CouldNotParseKNXIP
+from vlib import refcrypto_ip as ref
+from vlib.peers_secure import SecureRoutingPeer, SecureServer
+from xknx.io import ip_secure
+from xknx.io.ip_secure import SecureGroup, SecureSession
 from xknx.io.transport import TCPTransport, UDPTransport
-from xknx.knxip import KNXIPFrame
+from xknx.knxip import KNXIPFrame, SecureWrapper, SessionRequest, TimerNotify
 
 LEVEL = "exploration"
 TECHNIQUE = (
@@ -456,6 +463,375 @@ def udp_part(ctx: Any, rng: Any, pools: Pools) -> None:
         loop.finish()
 
 
+# --------------------------------------------------------------------------
+# secure transports (SecureSession over TCP, SecureGroup over UDP multicast): judged on the no-exception clause only
+
+
+@contextlib.contextmanager
+def _secure_patches(keyrng: list[Any]) -> Any:
+    """Memoise the pure PBKDF2 derivations, make ECDH key pairs reproducible, record the frame being handled."""
+    saved = (ip_secure.derive_user_password, ip_secure.derive_device_authentication_password, ip_secure.generate_ecdh_key_pair,
+             SecureSession.handle_knxipframe, SecureGroup.handle_knxipframe)
+    ip_secure.derive_user_password = functools.cache(saved[0])
+    ip_secure.derive_device_authentication_password = functools.cache(saved[1])
+
+    def keypair() -> Any:
+        priv = ref.x25519_private(keyrng[0].randbytes(32))
+        return priv, ref.x25519_public_bytes(priv)
+
+    ip_secure.generate_ecdh_key_pair = keypair
+
+    def observed(orig: Any) -> Any:
+        def handle(self: Any, knxipframe: Any, source: Any) -> None:
+            state = getattr(self, "initialized", None)
+            if state is None:
+                state = self.secure_timer.timer_authenticated
+            _HANDLING[0] = (knxipframe.header.service_type_ident.name, bool(state))
+            orig(self, knxipframe, source)
+
+        return handle
+
+    SecureSession.handle_knxipframe = observed(saved[3])  # type: ignore[method-assign]
+    SecureGroup.handle_knxipframe = observed(saved[4])  # type: ignore[method-assign]
+    try:
+        yield
+    finally:
+        (ip_secure.derive_user_password, ip_secure.derive_device_authentication_password, ip_secure.generate_ecdh_key_pair,
+         SecureSession.handle_knxipframe, SecureGroup.handle_knxipframe) = saved  # type: ignore[method-assign]
+
+
+_HANDLING: list[Any] = [None]
+CREDS = (("secret", "trustme", 2), ("pw-A!", None, 1))
+SESSION_PHASES = ("unconnected", "awaiting-session-response", "awaiting-authentication-status", "authenticated")
+# nothing is fed after stop(): a closed asyncio transport delivers nothing, such histories would be artificial
+GROUP_PHASES = ("before-timer-sync", "timer-synchronised", "timekeeper-after-timeout")
+
+
+def _inner_frames(rng: Any, pools: Pools) -> bytes:
+    r = rng.random()
+    if r < 0.55:
+        return rng.choice(pools.valid)[0]
+    if r < 0.7:
+        return rng.choice(pools.bad_cnp)
+    if r < 0.8:
+        return rng.choice(pools.unreadable)
+    if r < 0.9:
+        return ref.session_status(rng.choice((0, 1, 2, 3, 4, 5, 9)))
+    return rng.randbytes(rng.choice((0, 1, 5, 6, 30)))
+
+
+def _session_items(rng: Any, pools: Pools, n: int, key: bytes, sid: int, serial: bytes, seq: list[int], client_pub: bytes, server: Any) -> list[tuple[str, bytes]]:
+    """Frames a peer could send on the TCP connection, at the right or wrong time."""
+    out: list[tuple[str, bytes]] = []
+    for _ in range(n):
+        k = rng.randrange(14)
+        if k < 3:
+            seq[0] += 1
+            out.append(("wrapper-genuine", ref.wrap(key, sid, seq[0], serial, b"\x00\x00", _inner_frames(rng, pools))))
+        elif k == 3:
+            out.append(("wrapper-replayed-or-old", ref.wrap(key, sid, rng.randrange(0, seq[0] + 1), serial, b"\x00\x00", _inner_frames(rng, pools))))
+        elif k == 4:
+            out.append(("wrapper-forged", ref.wrap(rng.choice((rng.randbytes(16), key)), rng.choice((sid, sid ^ 1, 0)), seq[0] + 5, serial, rng.randbytes(2), _inner_frames(rng, pools))))
+        elif k == 5:
+            out.append(("wrapper-random", g.frame_bytes(g.gen_body(SecureWrapper, rng))))
+        elif k == 6:
+            seq[0] += 1
+            nested = ref.wrap(key, sid, seq[0] + 1, serial, b"\x00\x00", rng.choice(pools.valid)[0])
+            out.append(("wrapper-nested-or-forbidden", ref.wrap(key, sid, seq[0], serial, b"\x00\x00", rng.choice((nested, g.header(0x0740, 6), g.header(0x0743, 8) + b"\x00\x00")))))
+        elif k == 7:
+            pub = server.public if server is not None and rng.random() < 0.5 else rng.randbytes(32)
+            dev = server.device_key if server is not None and rng.random() < 0.5 else rng.randbytes(16)
+            out.append(("session-response", ref.session_response(dev, rng.choice((sid, 0, 0xFFFF)), client_pub, pub)))
+        elif k == 8:
+            out.append(("session-status-plain", ref.session_status(rng.choice((0, 1, 2, 3, 4, 5, 0x77)))))
+        elif k == 9:
+            out.append(rng.choice((("session-authenticate", ref.session_authenticate(rng.randbytes(16), rng.randrange(256), client_pub, rng.randbytes(32))),
+                                   ("session-request", g.frame_bytes(g.gen_body(SessionRequest, rng))),
+                                   ("timer-notify", g.frame_bytes(g.gen_body(TimerNotify, rng))))))
+        elif k == 10:
+            seq[0] += 1
+            out.append(("wrapper-genuine-session-status", ref.wrap(key, sid, seq[0], serial, b"\x00\x00", ref.session_status(rng.choice((0, 1, 2, 3, 4, 5))))))
+        elif k == 11:
+            out.append(("malformed", rng.choice(pools.bad_cnp)))
+        elif k == 12:
+            out.append(("garbage", rng.choice(pools.unreadable)))
+        else:
+            out.append(("plain", rng.choice(pools.valid)[0]))
+    return out
+
+
+def _flag(ctx: Any, transport: str, exc_name: str, situation: str, witness: dict[str, Any], callback: str | None = None) -> None:
+    ctx.count(f"secure_{transport}_exception_escaped")
+    if callback is not None:
+        # not raised while a chunk/datagram was processed, but later by one of the transport's own loop callbacks (timers)
+        ctx.violation(
+            f"secure-{transport}-{exc_name}-escapes-loop-callback-{callback}",
+            dict(witness, last_frame_handled=situation),
+            f"Secure{transport.capitalize()}: {exc_name} out of the loop callback {callback} reached the event loop after the injected traffic: {str(witness.get('exception'))[:160]}",
+        )
+        ctx.distinct(("secure", transport, "callback", callback, exc_name))
+        return
+    ctx.violation(
+        f"secure-{transport}-{exc_name}-escapes-data_received-{situation}",
+        witness,
+        f"Secure{transport.capitalize()} let {exc_name} escape from data_received ({situation}): {str(witness.get('exception'))[:120]}",
+    )
+    ctx.distinct(("secure", transport, situation, exc_name))
+
+
+def _callback_name(rec: dict[str, Any]) -> str | None:
+    """None if the record stems from an injected chunk/datagram (Fake*Transport.deliver), else the name of the loop callback that raised."""
+    msg = str(rec.get("message"))
+    if ".deliver(" in msg:
+        return None
+    if "Exception in callback " in msg:
+        return msg.split("Exception in callback ", 1)[1].split("(", 1)[0].strip()
+    return "loop"
+
+
+def _loop_records(loop: Any, start: int) -> list[dict[str, Any]]:
+    """Exceptions of callbacks that reached the loop handler (task results of user calls are not transport escapes)."""
+    return [r for r in loop.exceptions[start:] if "never retrieved" not in str(r.get("message"))]
+
+
+def secure_session_history(ctx: Any, rng: Any, pools: Pools, index: int) -> None:
+    phase = SESSION_PHASES[index % len(SESSION_PHASES)]
+    via = "loop" if (index // len(SESSION_PHASES)) % 3 == 2 else "direct"
+    user_pw, dev_pw, user_id = CREDS[index % len(CREDS)]
+    loop = new_loop()
+    sid = rng.choice((1, 2, 0x1234, 0xFFFF))
+    server = SecureServer(loop, server_private_raw=rng.randbytes(32), device_password=dev_pw, users={user_id: user_pw}, session_id=sid,
+                          auto_handshake=phase in ("authenticated", "awaiting-authentication-status"), auto_tunnel=False)
+    if phase == "awaiting-authentication-status":
+        server.auth_status = -1  # sentinel: see below, the status frame is withheld
+    loop.on_connection = server.attach
+    got: list[Any] = []
+    events: list[dict[str, Any]] = []
+    ctx.ev()
+    ctx.count("secure_session_histories")
+    ctx.count("secure_session_phase_" + phase)
+
+    async def scenario() -> None:
+        session = SecureSession(remote_addr=ADDR, user_id=user_id, user_password=user_pw, device_authentication_password=dev_pw)
+        session.register_callback(lambda frame, src, t: got.append(frame))
+        task = None
+        if phase != "unconnected":
+            if phase == "awaiting-authentication-status":
+                orig_later = server.later
+
+                def later(raw: bytes, delay: Any = None, label: str = "") -> None:
+                    if server.key is not None and ref.service_of(raw) == ref.HDR_WRAPPER:
+                        return  # withhold the authentication status
+                    orig_later(raw, delay, label)
+
+                server.later = later  # type: ignore[method-assign]
+            task = asyncio.ensure_future(session.connect())
+            await asyncio.sleep(0.05)
+            if phase == "authenticated":
+                await asyncio.wait([task], timeout=5)
+                if task.done() and task.exception() is None and session.initialized:
+                    ctx.count("secure_session_handshakes_completed")
+                else:
+                    ctx.count("secure_session_handshake_failed")
+        key = server.key if server.key is not None else rng.randbytes(16)
+        client_pub = server.client_public or rng.randbytes(32)
+        seq = [server.tx_seq + 1]
+        items = _session_items(rng, pools, rng.randrange(2, 14), key, sid, server.serial, seq, client_pub, server)
+        data = b"".join(d for _k, d in items)
+        r = rng.random()
+        if r < 0.3:
+            chunks = [d for _k, d in items]
+        elif r < 0.4:
+            chunks = [data]
+        else:
+            cuts = sorted(set(rng.randrange(1, len(data)) for _ in range(rng.choice((1, 3, 8, 20))))) if len(data) > 1 else []
+            chunks = _split(data, cuts)
+        stream = loop.stream_transports[-1] if loop.stream_transports else None
+        for i, chunk in enumerate(chunks):
+            ctx.count("secure_session_chunks_fed")
+            _HANDLING[0] = None
+            n_loop = len(loop.exceptions)
+            exc: Any = None
+            if via == "loop" and stream is not None:
+                stream.deliver_later(0.0005, chunk)
+                await asyncio.sleep(0.001)
+            else:
+                try:
+                    if stream is not None:
+                        stream.deliver(chunk)
+                    else:
+                        session.data_received_callback(chunk)
+                except Exception as err:  # noqa: BLE001 - this is the monitor
+                    exc = err
+                await asyncio.sleep(0.001)
+            found = [(type(exc).__name__, None, repr(exc)[:200])] if exc is not None else []
+            found += [(str(rec["type"]), _callback_name(rec), str(rec)[:300]) for rec in _loop_records(loop, n_loop)]
+            for name, cb, detail in found:
+                events.append({"chunk": i, "exception": name, "detail": detail, "handling": _HANDLING[0], "callback": cb})
+        if got:
+            ctx.count("secure_session_frames_forwarded_to_callbacks", len(got))
+        if task is not None:
+            task.cancel()
+            await asyncio.gather(task, return_exceptions=True)
+        session.stop()
+        await asyncio.sleep(0.01)
+        witness_items.extend((k, d[:120]) for k, d in items[:20])
+        witness_chunks.extend(len(c) for c in chunks[:100])
+
+    witness_items: list[Any] = []
+    witness_chunks: list[int] = []
+    res = g.budgeted(loop.run, (scenario(),), 3_000_000, wall_s=60, heap=False)
+    loop.finish()
+    exc = res["exc"]
+    if isinstance(exc, g.WallBackstop):
+        ctx.inconclusive("wall-clock backstop fired in a secure session history")
+        return
+    base = {"transport": "secure-session", "phase": phase, "via": via, "index": index, "items": witness_items, "chunk_lengths": witness_chunks}
+    if isinstance(exc, g.StepBudgetExceeded):
+        _flag(ctx, "session", "step-budget-exceeded", phase, dict(base, exception=str(exc)))
+        return
+    if exc is not None:
+        raise exc
+    for ev in events:
+        name = "step-budget-exceeded" if ev["exception"] == "StepBudgetExceeded" else ev["exception"]
+        handling = ev["handling"]
+        situation = "in-stream-parsing" if handling is None else ("initialized" if handling[1] else "not-initialized") + "-on-" + handling[0]
+        _flag(ctx, "session", name, situation, dict(base, exception=ev["detail"], at_chunk=ev["chunk"]), ev["callback"])
+    if not events:
+        ctx.count("secure_session_histories_without_exception")
+        ctx.distinct(("secure-session", phase, via, min(len(witness_chunks), 10), bool(got)))
+
+
+def secure_group_history(ctx: Any, rng: Any, pools: Pools, index: int) -> None:
+    phase = GROUP_PHASES[index % len(GROUP_PHASES)]
+    via = "loop" if (index // len(GROUP_PHASES)) % 3 == 2 else "direct"
+    loop = new_loop()
+    key = rng.randbytes(16)
+    peer = SecureRoutingPeer(key, serial=rng.randbytes(6))
+    got: list[Any] = []
+    events: list[dict[str, Any]] = []
+    sent: list[Any] = []
+    ctx.ev()
+    ctx.count("secure_group_histories")
+    ctx.count("secure_group_phase_" + phase)
+
+    async def scenario() -> None:
+        group = SecureGroup(local_addr=("10.0.0.1", 0), remote_addr=("224.0.23.12", 3671), backbone_key=key, latency_ms=rng.choice((500, 1000, 2000)))
+        group.register_callback(lambda frame, src, t: got.append(frame))
+        task = asyncio.ensure_future(group.connect())
+        await asyncio.sleep(0.01)
+        dts = [t for t in loop.datagram_transports if not t.closed]
+        if phase == "timer-synchronised":
+            ours = [d for (_t, dr, d, _a, _tr) in loop.wire if dr == "tx" and ref.service_of(d) == ref.HDR_TIMER_NOTIFY]
+            if ours and dts:
+                f = ours[0]
+                dts[0].deliver(peer.timer_notify(rng.randrange(1, 2**40), f[18:20], serial=f[12:18]), ADDR)
+            await asyncio.wait([task], timeout=1)
+        elif phase == "timekeeper-after-timeout":
+            await asyncio.wait([task], timeout=20)
+        if group.secure_timer.timer_authenticated:
+            ctx.count("secure_group_synchronised")
+        own = group.local_addr_assigned
+        for i in range(rng.randrange(3, 16)):
+            now = group.secure_timer.current_timer_value()
+            t = max(0, min(2**48 - 1, now + rng.choice((0, 1, -1, 50, -50, -150, -900, -1100, -5000, 5000, 10**7, -(10**7), 2**47, 2**48))))
+            tag = rng.randbytes(2)
+            k = rng.randrange(13)
+            if k < 2:
+                kind, raw = "timer-notify-valid", peer.timer_notify(t, tag)
+            elif k == 2:
+                kind, raw = "timer-notify-forged", peer.timer_notify(t, tag, key=rng.randbytes(16))
+            elif k == 3:
+                raw = peer.timer_notify(t, tag)
+                cut = rng.randrange(0, len(raw))
+                kind, raw = "timer-notify-truncated", rng.choice((raw[:cut], raw[:4] + len(raw[:cut]).to_bytes(2, "big") + raw[6:cut], raw + b"\x00"))
+            elif k < 6:
+                kind, raw = "wrapper-genuine", peer.wrapped(_inner_frames(rng, pools), t, tag)
+            elif k == 6:
+                kind, raw = "wrapper-forged", peer.wrapped(_inner_frames(rng, pools), t, tag, key=rng.choice((rng.randbytes(16), key)), session_id=rng.choice((0, 1, 0xFFFF)))
+            elif k == 7:
+                nested = peer.wrapped(rng.choice(pools.valid)[0], t, tag)
+                kind, raw = "wrapper-nested-or-forbidden", peer.wrapped(rng.choice((nested, g.header(0x0740, 6), peer.timer_notify(t, tag))), t, tag)
+            elif k == 8:
+                kind, raw = "wrapper-random", g.frame_bytes(g.gen_body(SecureWrapper, rng))
+            elif k == 9:
+                kind, raw = "malformed", rng.choice(pools.bad_cnp)
+            elif k == 10:
+                kind, raw = "garbage", rng.choice((rng.choice(pools.unreadable), rng.randbytes(rng.randrange(0, 40)), b""))
+            else:
+                kind, raw = "plain", rng.choice(pools.valid)[0]
+            sent.append((kind, raw[:120]))
+            live = [d for d in dts if not d.closed]
+            if not live:
+                break
+            dt = live[i % len(live)]
+            src = own if (own is not None and rng.random() < 0.1) else ADDR
+            ctx.count("secure_group_datagrams_fed")
+            ctx.count("secure_group_datagram_" + kind)
+            _HANDLING[0] = None
+            n_loop = len(loop.exceptions)
+            exc: Any = None
+            if via == "loop":
+                dt.deliver_later(0.0005, raw, src)
+            else:
+                try:
+                    dt.deliver(raw, src)
+                except Exception as err:  # noqa: BLE001 - this is the monitor
+                    exc = err
+            await asyncio.sleep(rng.choice((0.001, 0.001, 0.3, 2.0, 12.0)))
+            found = [(type(exc).__name__, None, repr(exc)[:200])] if exc is not None else []
+            found += [(str(rec["type"]), _callback_name(rec), str(rec)[:300]) for rec in _loop_records(loop, n_loop)]
+            for name, cb, detail in found:
+                events.append({"datagram": i, "kind": kind, "exception": name, "detail": detail, "handling": _HANDLING[0], "callback": cb})
+        if got:
+            ctx.count("secure_group_frames_forwarded_to_callbacks", len(got))
+        task.cancel()
+        await asyncio.gather(task, return_exceptions=True)
+        group.stop()
+        await asyncio.sleep(0.01)
+
+    res = g.budgeted(loop.run, (scenario(),), 3_000_000, wall_s=60, heap=False)
+    loop.finish()
+    exc = res["exc"]
+    if isinstance(exc, g.WallBackstop):
+        ctx.inconclusive("wall-clock backstop fired in a secure group history")
+        return
+    base = {"transport": "secure-group", "phase": phase, "via": via, "index": index, "datagrams": sent[:30]}
+    if isinstance(exc, g.StepBudgetExceeded):
+        _flag(ctx, "group", "step-budget-exceeded", phase, dict(base, exception=str(exc)))
+        return
+    if exc is not None:
+        raise exc
+    for ev in events:
+        name = "step-budget-exceeded" if ev["exception"] == "StepBudgetExceeded" else ev["exception"]
+        handling = ev["handling"]
+        situation = "in-datagram-parsing" if handling is None else ("timer-authenticated" if handling[1] else "timer-not-authenticated") + "-on-" + handling[0]
+        _flag(ctx, "group", name, situation, dict(base, exception=ev["detail"], at_datagram=ev["datagram"]), ev["callback"])
+    if not events:
+        ctx.count("secure_group_histories_without_exception")
+        ctx.distinct(("secure-group", phase, via, min(len(sent), 10), bool(got)))
+
+
+def _one_secure_history(ctx: Any, pools: Pools, kind: str, index: int) -> None:
+    """Histories draw from their own generator (seed, kind, index) so that a witness can be replayed alone."""
+    hrng = random.Random(f"c22-secure/{ctx.seed}/{kind}/{index}")
+    random.seed(f"c22-secure-global/{ctx.seed}/{kind}/{index}")  # xknx draws message tags / notify delays from the global generator
+    with _secure_patches([random.Random(hrng.randrange(1 << 30))]):
+        (secure_session_history if kind == "session" else secure_group_history)(ctx, hrng, pools, index)
+
+
+def secure_part(ctx: Any, rng: Any, pools: Pools) -> None:
+    self_test = ref.self_test(with_pbkdf2=False)
+    if self_test:
+        ctx.inconclusive("reference crypto self test failed: " + "; ".join(self_test)[:200])
+        return
+    patch_multicast()
+    for kind, n in (("session", ctx.scale(160, 4000)), ("group", ctx.scale(120, 3000))):
+        for i in range(n):
+            if ctx.mine(i):
+                _one_secure_history(ctx, pools, kind, i)
+
+
 def run(ctx: Any) -> None:
     ctx.rule = (
         "TCP: streams = concatenations of valid frames, malformed frames with readable length, unreadable headers, partial tails; "
@@ -464,7 +840,9 @@ def run(ctx: Any) -> None:
     )
     ctx.require("tcp_streams_run", "tcp_delivery_lists_equal", "tcp_exhaustive_chunkings", "tcp_frames_delivered", "udp_datagrams_fed",
                 "udp_no_exception", "pool_valid", "pool_malformed_readable_length", "pool_unreadable_header",
-                "tcp_streams_through_loop_transport", "udp_datagrams_through_loop_transport", "tcp_many_frames_one_chunk")
+                "tcp_streams_through_loop_transport", "udp_datagrams_through_loop_transport", "tcp_many_frames_one_chunk",
+                "secure_session_chunks_fed", "secure_session_handshakes_completed", "secure_session_frames_forwarded_to_callbacks",
+                "secure_group_datagrams_fed", "secure_group_synchronised", "secure_group_frames_forwarded_to_callbacks")
     rng = ctx.rng
     pools = Pools(ctx, rng)
     if not pools.tiny or not pools.bad_cnp or not pools.unreadable:
@@ -472,6 +850,7 @@ def run(ctx: Any) -> None:
         return
     tcp_part(ctx, rng, pools)
     udp_part(ctx, rng, pools)
+    secure_part(ctx, rng, pools)
     ctx.exhaustive = True
     ctx.extra["exhaustive_part"] = (
         "every boundary set of each short TCP stream (<= 14 octets quick / 16 thorough) and every subset of the selected cut points "
@@ -496,6 +875,11 @@ def replay(ctx: Any, witness: dict[str, Any]) -> None:
         if res["exc"] is not None:
             name = "step-budget-exceeded" if isinstance(res["exc"], g.StepBudgetExceeded) else type(res["exc"]).__name__
             ctx.violation(f"udp-{name}-escapes-data_received", witness, f"replayed: {name} escapes UDP data_received_callback")
+        return
+    if str(witness.get("transport", "")).startswith("secure-"):
+        patch_multicast()
+        pools = Pools(ctx, ctx.rng)
+        _one_secure_history(ctx, pools, witness["transport"].split("-", 1)[1], witness["index"])
         return
     frames = witness["frames"]
     if witness["n_frames"] > len(frames) or any(f["len"] > 200 for f in frames):
